@@ -24,7 +24,7 @@ func init() { Registry["C08"] = c08 }
 // scheduling point of the concurrent harness); g2 is registered but never
 // declared stateless.
 type c8env struct {
-	point func(string) // scheduler hook (nil when sequential)
+	point  func(string) // scheduler hook (nil when sequential)
 	fCalls int64
 }
 
@@ -48,7 +48,22 @@ func (en *c8env) ops() map[string]eval.Operator {
 			return s, nil
 		}
 	}
-	return map[string]eval.Operator{"f": sum("f"), "g2": sum("g2"), "f0": sum("f0"), "f-other": func(ctx *eval.Ctx, params []eval.Value) (eval.Value, error) {
+	tup := func(ctx *eval.Ctx, params []eval.Value) (eval.Value, error) {
+		// a variadic "tuple" constructor that hands its parameter slice back
+		return params, nil
+	}
+	nth := func(ctx *eval.Ctx, params []eval.Value) (eval.Value, error) {
+		if len(params) != 2 {
+			return nil, fmt.Errorf("nth: two parameters")
+		}
+		i, ok1 := params[0].(int64)
+		l, ok2 := params[1].([]eval.Value)
+		if !ok1 || !ok2 || i < 0 || int(i) >= len(l) {
+			return nil, fmt.Errorf("nth: bad parameters")
+		}
+		return l[i], nil
+	}
+	return map[string]eval.Operator{"tup": tup, "nth": nth, "f": sum("f"), "g2": sum("g2"), "f0": sum("f0"), "f-other": func(ctx *eval.Ctx, params []eval.Value) (eval.Value, error) {
 		// a DIFFERENT operator that another config registers under the same name f
 		v, err := sum("f")(ctx, params)
 		if err != nil {
@@ -85,7 +100,7 @@ func c8Configs(en *c8env) []*eval.Config {
 	a.CostsMap["x"] = 100
 	a.CostsMap["f"] = -3
 	delete(a.OperatorMap, "f-other")
-	a.StatelessOperators = append(make([]string, 0, 8), "zz_unregistered", "f0", "f") // not alphabetical; spare capacity: a shallow copy would share it
+	a.StatelessOperators = append(make([]string, 0, 8), "zz_unregistered", "f0", "f", "tup") // not alphabetical; spare capacity: a shallow copy would share it
 
 	b := eval.NewConfig()
 	b.ConstantMap["K1"] = int64(1)
@@ -97,6 +112,9 @@ func c8Configs(en *c8env) []*eval.Config {
 	delete(b.OperatorMap, "f-other")
 	b.CompileOptions[eval.Reordering] = false
 	b.CompileOptions[eval.FastEvaluation] = true
+	b.CompileOptions[eval.Optimize] = false // the master switch written into the map by hand, next to an explicit entry
+	b.CompileOptions[eval.ConstantFolding] = true
+	b.StatelessOperators = []string{"tup"}
 
 	c := eval.NewConfig()
 	c.ConstantMap["K1"] = int64(2)
@@ -130,12 +148,14 @@ var c8Sources = []string{
 	"(or (in x BIGI) (in KS BIGS) (= (f 1 2) 3))",
 	"(and (= 1 1) (> (+ 2 3) 4) (or (= 2 2) (< 1 0)))",
 	"(and (= x_alias 1) (or y_old (= x 2)))",
+	"(= (nth x (tup 10 20 30)) 20)",
+	"(= (nth x (tup 7 8 9)) 8)",
 }
 
 // c8Probe: sources used as the final step of long histories: plain sources
 // whose compilation is sensitive to leaked options / stateless declarations /
 // rearranged constants.
-var c8Probe = map[int]bool{0: true, 4: true, 5: true, 10: true, 13: true, 14: true, 15: true, 16: true}
+var c8Probe = map[int]bool{0: true, 4: true, 5: true, 10: true, 13: true, 14: true, 15: true, 16: true, 18: true}
 
 func c8BigSrc() string {
 	var is, ss []string
@@ -282,7 +302,7 @@ func c08(r *rep.Run) {
 		depth = 4
 		r.SetBudget(1800e9)
 	}
-	r.Rule = "three caller configs with different contents plus the nil config (constants, registered/undefined-mode variables, two names aliased to one variable key, operators with f declared stateless in two of them, costs, options, a stateless list with spare capacity) x 17 sources (every directive form incl. after an ordinary comment, sources failing at each parser stage, undefined variables, stateless and non-stateless operators). (1) every history of Compile(config_i, source_j) calls up to the depth bound (from the third step on the last call is one of 6 probing sources): after every call every config's public contents are unchanged and the result (error text, or Dump + DumpTable + behaviour on 3 bindings, each through a by-name and a by-key fetcher) equals the result of the same call made first on fresh equal configs; each history is also replayed to expose iteration-order nondeterminism. (2) copy histories: every chain of CopyConfig / NewConfig(ExtendConf) up to depth 3 followed by every single mutation (insert/overwrite/delete in each of the 5 maps, overwrite/append on the stateless list) of either side: the other side is unchanged. (3) every interleaving of 2 and 3 concurrent Compile calls on one shared config whose folding invokes the harness's stateless operator (scheduling point), plus a free-running race-detector pass (Compile + CopyConfig + ExtendConf on one config). non-trivial = histories in which a directive-bearing or failing compilation precedes another compilation"
+	r.Rule = "three caller configs with different contents plus the nil config (constants, registered/undefined-mode variables, two names aliased to one variable key, operators with f declared stateless in two of them, costs, options, a stateless list with spare capacity) x 17 sources (every directive form incl. after an ordinary comment, sources failing at each parser stage, undefined variables, stateless and non-stateless operators). (1) every history of Compile(config_i, source_j) calls up to the depth bound (from the third step on the last call is one of 6 probing sources): after every call every config's public contents are unchanged and the result (error text, or Dump + DumpTable + behaviour on 3 bindings, each through a by-name and a by-key fetcher) equals the result of the same call made first on fresh equal configs, and every program compiled EARLIER in the history still dumps and behaves as it did; each history is also replayed to expose iteration-order nondeterminism. (2) copy histories: every chain of CopyConfig / NewConfig(ExtendConf) up to depth 3 followed by every single mutation (insert/overwrite/delete in each of the 5 maps, overwrite/append on the stateless list) of either side: the other side is unchanged. (3) every interleaving of 2 and 3 concurrent Compile calls on one shared config whose folding invokes the harness's stateless operator (scheduling point), plus a free-running race-detector pass (Compile + CopyConfig + ExtendConf on one config). non-trivial = histories in which a directive-bearing or failing compilation precedes another compilation"
 	r.Assume = []string{"Config equality is equality of the exported fields (maps by content, operators by function identity)",
 		"scheduling points inside Compile exist only where it calls back into the environment (stateless operator during folding); the rest is covered by the race pass"}
 
@@ -343,11 +363,31 @@ func c08(r *rep.Run) {
 				for i, c := range cfgs {
 					snaps[i] = c8Snapshot(c)
 				}
+				type earlier struct {
+					e   *eval.Expr
+					res string
+				}
+				var kept []earlier
 				for s := 0; s < k; s++ {
 					ci, si := hist[s]/len(c8Sources), hist[s]%len(c8Sources)
 					e, err := c8Compile(cfgs[ci], c8Sources[si])
 					got := c8Result(e, err)
 					atomic.AddInt64(&steps, 1)
+					// programs compiled earlier in this history are finished objects:
+					// a later compilation must not change what they are or do
+					for pk, pe := range kept {
+						if now := c8Result(pe.e, nil); now != pe.res {
+							var h []string
+							for _, x := range hist[:s+1] {
+								h = append(h, sprintf("Compile(config%c, %q)", 'A'+x/len(c8Sources), c8Sources[x%len(c8Sources)]))
+							}
+							r.Violate("earlier-program-changed", sprintf("%d/%d", hist[pk], hist[s]), sprintf("the program compiled at step %d changed when step %d compiled another source", pk+1, s+1), map[string]interface{}{"history": h, "before": pe.res, "after": now})
+							kept[pk].res = now
+						}
+					}
+					if err == nil && e != nil {
+						kept = append(kept, earlier{e, got})
+					}
 					d := func() map[string]interface{} {
 						var h []string
 						for _, x := range hist[:s+1] {
@@ -453,8 +493,14 @@ func c8Mutations() []c8mut {
 		{"CostsMap overwrite", func(c *eval.Config) { c.CostsMap["x"] = -1 }},
 		{"CostsMap delete", func(c *eval.Config) { delete(c.CostsMap, "x") }},
 		{"CompileOptions insert", func(c *eval.Config) { c.CompileOptions[eval.Debug] = true }},
-		{"CompileOptions overwrite", func(c *eval.Config) { c.CompileOptions[eval.Reordering] = true; c.CompileOptions[eval.ReportEvent] = false }},
-		{"CompileOptions delete", func(c *eval.Config) { delete(c.CompileOptions, eval.Reordering); delete(c.CompileOptions, eval.ReportEvent) }},
+		{"CompileOptions overwrite", func(c *eval.Config) {
+			c.CompileOptions[eval.Reordering] = true
+			c.CompileOptions[eval.ReportEvent] = false
+		}},
+		{"CompileOptions delete", func(c *eval.Config) {
+			delete(c.CompileOptions, eval.Reordering)
+			delete(c.CompileOptions, eval.ReportEvent)
+		}},
 		{"Stateless overwrite element", func(c *eval.Config) {
 			if len(c.StatelessOperators) > 0 {
 				c.StatelessOperators[0] = "zzz"
